@@ -5,8 +5,8 @@ Operational copy of the glue between the query engine, the transport service and
 `peers[p].pending_actions`, `pending_dials`, `pending_substreams`, the executor's futures,
 `on_query_action` (incl. the PUT_VALUE / ADD_PROVIDER fan-out followed by `start_*_tracking`),
 `open_substream_or_dial`, `on_connection_established` (both `Entry` branches), `disconnect_peer`,
-`on_outbound_substream`, `on_substream_open_failure`, `on_dial_failure` and the handling of executor
-results in `run`. `PutToTargetPeersContext` (`query/target_peers.rs`) is modelled exactly, the
+`on_outbound_substream`, `on_substream_open_failure`, `on_dial_failure`, the handling of executor
+results in `run`, and what serving an inbound request does to the bookkeeping (`on_inbound_substream`). `PutToTargetPeersContext` (`query/target_peers.rs`) is modelled exactly, the
 iterative lookups (`FindNodeContext`, `GetRecordContext`, `GetProvidersContext`,
 `FindManyNodesContext`) are abstracted to the set of peers they wait for; which peer a lookup
 queries next and when it finishes are choices of the environment (labels of the transition system),
@@ -457,6 +457,20 @@ def execResult (s : State) (f : Fut) (r : Res) : State :=
                 sendResults := (f.q, f.peer, f.kind) :: s1.sendResults }
   else s
 
+/-! ## Inbound substreams (requests of remote peers)
+
+Handling a FIND_NODE / GET_VALUE / PUT_VALUE / ADD_PROVIDER / GET_PROVIDERS request of a remote peer creates no user
+operation and touches the coordinator's bookkeeping in two places only. -/
+
+/-- `on_inbound_substream` (reported only on an open connection): `peers.entry(peer).or_default()`, then the request is
+read by an executor future without query id. -/
+def inbound (s : State) (p : Peer) : State :=
+  if p ∈ s.connected then { s with ctx := if p ∈ s.ctx then s.ctx else s.ctx ++ [p] } else s
+
+/-- A future without query id (reading the request, sending the response) failed or timed out:
+`disconnect_peer(peer, None)`; the connection itself stays. -/
+def inboundFailed (s : State) (p : Peer) : State := disconnectPeer s p none
+
 /-! ## User commands -/
 
 inductive Cmd
@@ -498,6 +512,8 @@ inductive Label
   | subOpened (sid : Sid)
   | subOpenFailure (sid : Sid)
   | result (f : Fut) (r : Res)
+  | inbound (p : Peer)
+  | inboundFailed (p : Peer)
   deriving Repr, Inhabited
 
 /-- One step; `none` only for an engine action the engine cannot produce. -/
@@ -510,6 +526,8 @@ def step (s : State) : Label → Option State
   | .subOpened sid => some (subOpened s sid).1
   | .subOpenFailure sid => some (subOpenFailure s sid)
   | .result f r => some (execResult s f r)
+  | .inbound p => some (inbound s p)
+  | .inboundFailed p => some (inboundFailed s p)
 
 /-- Run a schedule; labels the engine cannot produce are skipped. -/
 def run (s : State) : List Label → State
